@@ -411,6 +411,10 @@ class RunResult(object):
                                                       self.exc)
 
 
+# CPU seconds this process has spent in simulator calls that were cut off by the runaway guard
+RUNAWAY_SPENT = [0.0]
+
+
 def run_under(sim, fn, *args, **kwargs):
     """Run fn(*args, **kwargs) with the seam installed; classify the outcome."""
     res = RunResult()
@@ -425,11 +429,12 @@ def run_under(sim, fn, *args, **kwargs):
         g0 = _random.getstate()
         n0 = _np_state()
     guard = False
-    if not real:
-        try:
-            guard = callable(signal.getsignal(signal.SIGVTALRM))
-        except Exception:
-            guard = False
+    try:
+        # (also for runs under the real generators - C18's repeat families: a call that does not
+        # return is "runaway" there too instead of eating the whole run's CPU limit)
+        guard = callable(signal.getsignal(signal.SIGVTALRM))
+    except Exception:
+        guard = False
     if guard:
         rem = signal.getitimer(signal.ITIMER_VIRTUAL)[0]
         c0 = time.process_time()
@@ -441,6 +446,7 @@ def run_under(sim, fn, *args, **kwargs):
         res.status = "done"
     except Runaway:
         res.status = "runaway"
+        RUNAWAY_SPENT[0] += RUN_GUARD_S
     except ScriptExhausted:
         res.status = "pending"
         res.pending = sim.pending
